@@ -631,6 +631,22 @@ func c02Limits(a *ChildArgs) {
 			}
 		}
 	}
+	// the same boundary through every entry point that parses tokenizer output: a valid statement of exactly
+	// MaxTokens tokens (the end marker the tokenizer appends is not a token of the input)
+	for ti, tail := range []string{"", " -- end\n"} {
+		s := "SELECT 1" + strings.Repeat(",1", mt/2-1) + tail // exactly mt tokens
+		for _, ep := range TextEntryPoints() {
+			if strings.HasPrefix(ep.Name, "Scanner.") || strings.HasPrefix(ep.Name, "textsecurity.") || strings.HasPrefix(ep.Name, "linter.") || strings.Contains(ep.Name, "ParseMultiple") {
+				continue
+			}
+			a.Rec.Count("evaluations", 1)
+			a.Rec.Distinct("cases", fmt.Sprintf("tokens-at-limit-all/%s/%d", ep.Name, ti))
+			if got := ep.F(s); got == "err:E1007" {
+				a.Rec.Viol(fmt.Sprintf("C02/tokens/at-limit/%s/tail-%d/rejected", ep.Name, ti), "input exactly at the limit is not rejected for that reason",
+					fmt.Sprintf("%s: a statement of exactly %d tokens followed by %q rejected with E1007", ep.Name, mt, tail), map[string]interface{}{"entry": ep.Name, "tail": tail, "bytes": len(s)})
+			}
+		}
+	}
 	// comments are not tokens: they must not count against the token limit
 	for _, cs := range []struct {
 		name   string
